@@ -193,10 +193,16 @@ func (t *Transaction) decodeHashableFields(br *io.BinReader, buf []byte) {
 	if br.Err == nil {
 		br.Err = t.isValid()
 	}
-	if buf != nil {
+	if buf != nil && br.Err == nil {
 		end = len(buf) - br.Len()
-		t.hash = hash.Sha256(buf[start:end])
-		t.hashed = true
+		// The hash is defined over the canonical encoding. Received bytes can
+		// differ from it (non-minimal variable-length integers, non-canonical
+		// booleans), use them for hashing only if they're the same.
+		canon, err := t.EncodeHashableFields()
+		if err == nil && bytes.Equal(canon, buf[start:end]) {
+			t.hash = hash.Sha256(buf[start:end])
+			t.hashed = true
+		}
 	}
 }
 
